@@ -22,6 +22,7 @@ ASSUMPTIONS = [
     "spgemm_rmerge is only specified (and only run) for B with sorted rows without duplicate columns",
     "power method: the start vector is the one std::mt19937(0)/uniform_real_distribution produce on one thread (fed to the model); only OMP_NUM_THREADS=1",
     "diagonal(): rows without a diagonal entry leave the output cell as allocated (0 for vq::Q); only tested, not specified",
+    "pointwise_matrix: the block-maximum oracle is applied to row-sorted inputs with sizes divisible by the block size (the domain of theorem C08_pointwise_block_maximum); unsorted inputs are compared with the model only",
 ]
 TRUSTED_BASE = [
     "complex cases: std::complex<double> on small integers (exact) vs the Coq instance CqS (pairs of Qc)",
@@ -127,6 +128,7 @@ def base_cases(tier, seed):
         add("sort_rows", a)
         for op in ("copy_crs", "copy_ranges"): add(op, a)
         add("copy_assign", a, crs(k, m, B))
+        if it % 5 == 0: add("copy_assign_view", a, crs(k, m, B))
         # square with a diagonal
         D = gen.c08_with_diag(r, gen.rcrs(r, n, n, density=dens, dups=dups), n, zero_ok=False)
         d = crs(n, n, D)
@@ -136,7 +138,7 @@ def base_cases(tier, seed):
             Dz = [[(c, (F(0) if (c == i and r.random() < 0.5) else v)) for c, v in rw] for i, rw in enumerate(D)]
             add("diagonal", crs(n, n, Dz), 1)
         add("specrad", 0, "@NT@", d); add("specrad", 1, "@NT@", d)
-        if r.random() < 0.3:   # rows without diagonal: the thread-private `dia` is carried over
+        if r.random() < 0.3:   # rows without diagonal: scaled by the identity (dia is reset for every row)
             add("specrad", 1, "@NT@", crs(n, n, gen.rcrs(r, n, n, density=dens, dups=dups)))
         if n <= 5 and n >= 1 and r.random() < 0.5:
             Dn = gen.nonsym_dd(r, n) if r.random() < 0.5 else gen.spd_mmatrix(r, n)
@@ -302,9 +304,6 @@ def oracle_line(line, impl_out):
             return "%s o.pointwise %s %d %s" % (cid, a, bs, crs_tokens_of_output(impl_out))
         if op == "specrad":
             sc = int(c.tok()); nt = c.tok(); a = c.crs()
-            n, m, rows = rows_of_tokens(a)
-            # scaled variant: specified when every row has a non-zero diagonal entry
-            if sc and not all(any(cc == i for cc, _ in rw) for i, rw in enumerate(rows)): return None
             return "%s o.specrad %d %s %s" % (cid, sc, a, impl_out.strip())
         if op in ("copy_crs", "copy_ranges", "copy_tuple", "copy_convert"):
             a = c.crs()
@@ -312,19 +311,6 @@ def oracle_line(line, impl_out):
     except Exception as e:          # malformed output: let the correspondence stage report it
         return None
     return None
-
-
-def pointwise_multi_blockcol(payload):
-    """does some block row of the input touch >= 2 block columns? (necessary for the scan of a
-    block column to be ended by an entry of a later block column)"""
-    c = Cur(payload); a = c.crs(); bs = int(c.tok())
-    n, m, rows = rows_of_tokens(a)
-    for I in range(n // bs):
-        cols = set()
-        for rw in rows[I * bs:(I + 1) * bs]:
-            for cc, _ in rw: cols.add(cc // bs)
-        if len(cols) >= 2: return True
-    return False
 
 
 def run(ctx, cases_override=None):
@@ -372,18 +358,3 @@ def run(ctx, cases_override=None):
             x["theorem"] = "C08 %s: dense definition violated by the implementation's output (OMP_NUM_THREADS=%d)" % (x["op"], nt)
         fails += of
     return fails
-
-
-def classify(fail):
-    """signature of the known defect of pointwise_matrix: the implementation agrees with the
-    faithful model of the block scan (which consumes the entry that ends a block column), the
-    specification is violated, and some block row touches two or more block columns."""
-    try:
-        if fail.get("op") == "o.pointwise" and fail.get("impl_eq_model"):
-            payload = fail["case"].split(" ", 2)[2]
-            if pointwise_multi_blockcol(payload):
-                return {"site": "pointwise_matrix", "defect": "block-scan-terminator-consumed",
-                        "impl_matches_faithful_model": True}
-    except Exception:
-        pass
-    return {}
